@@ -209,10 +209,22 @@ func runP1(c *core.Ctx) {
 	u8 := p.Pkg("utf8")
 	if fd := core.FuncDecl(u8, "", "CorrectWith"); fd != nil {
 		c.Analysed("utf8.CorrectWith")
+		findCall := func(body ast.Node) *ast.CallExpr {
+			var call *ast.CallExpr
+			ast.Inspect(body, func(n ast.Node) bool {
+				if cl, ok := n.(*ast.CallExpr); ok {
+					if o := p.Callee(cl); o != nil && o.Name() == "ValidateUTF8" && o.Pkg() != nil && core.Rel(o.Pkg().Path()) == "internal/native" {
+						call = cl
+					}
+				}
+				return true
+			})
+			return call
+		}
 		var loop *ast.ForStmt
 		ast.Inspect(fd.Body, func(n ast.Node) bool {
 			if fs, ok := n.(*ast.ForStmt); ok && loop == nil {
-				if call, _ := nativeCallIn(p, fs.Body, "ValidateUTF8"); call != nil {
+				if findCall(fs.Body) != nil {
 					loop = fs
 				}
 			}
@@ -221,7 +233,31 @@ func runP1(c *core.Ctx) {
 		if loop == nil {
 			c.Bad("utf8.CorrectWith/retry-loop", fd.Pos(), "no loop around native.ValidateUTF8")
 		} else {
-			call, _ := nativeCallIn(p, loop.Body, "ValidateUTF8")
+			call := findCall(loop.Body)
+			// the pooled state machine is reset before its first use
+			initReset := false
+			for _, st := range fd.Body.List {
+				if st.Pos() >= loop.Pos() {
+					break
+				}
+				if as, ok := st.(*ast.AssignStmt); ok && len(as.Lhs) == 1 && strings.HasSuffix(exprStr(as.Lhs[0]), ".Sp") {
+					if v, ok := p.ConstInt(as.Rhs[0]); ok && v == 0 {
+						initReset = true
+					}
+				}
+			}
+			c.Check(initReset, "utf8.CorrectWith/P1-init-reset", fd.Pos(), "pooled state machine's Sp cleared before the first native call", "the state machine comes from a pool shared with the JSON validators but its Sp is not cleared before the first ValidateUTF8 call: positions left by a failed validation are replayed as invalid-byte positions")
+			// the native's result decides the reset
+			resultUsed := false
+			ast.Inspect(loop.Body, func(n ast.Node) bool {
+				if as, ok := n.(*ast.AssignStmt); ok && len(as.Rhs) == 1 && ast.Unparen(as.Rhs[0]) == ast.Expr(call) {
+					if id, ok := as.Lhs[0].(*ast.Ident); ok && id.Name != "_" {
+						resultUsed = true
+					}
+				}
+				return true
+			})
+			c.Check(resultUsed, "utf8.CorrectWith/P1-result-bound", call.Pos(), "the native's result is bound (it says whether the position list was full)", "the result of native.ValidateUTF8 is discarded: the loop cannot tell a full position list from a finished scan")
 			var cur types.Object
 			for _, a := range call.Args {
 				if u, ok := ast.Unparen(a).(*ast.UnaryExpr); ok && u.Op == token.AND {
